@@ -459,6 +459,9 @@ pub fn run(report: &mut Report, replay: Option<&Value>) {
             report.programs += 1;
             report.feature(&format!("threads:{}", hc.threads));
             report.feature(if hc.relative_from.is_some() { "paths:relative" } else { "paths:absolute" });
+            if hc.calls.iter().any(|(sp, q, _, _)| sp.contains("ln/../") || matches!(q, QuerySrc::Path(p) if p.contains("ln/../"))) {
+                report.feature("paths:through_symlinked_directory");
+            }
             if done < 2 {
                 done += 1;
                 report.sample(json!({"files": hc.files.files.iter().map(|(p, c)| json!({"path": p, "bytes": c.as_ref().map(|c| c.len())})).collect::<Vec<_>>(), "calls": hc.calls.iter().take(8).map(|(s, q, o, _)| json!({"schema": s, "query": match q { QuerySrc::Path(p) => format!("path:{}", p), QuerySrc::Text(t) => format!("text:{} bytes", t.len()) }, "normalization_rust": o.normalization_rust})).collect::<Vec<_>>(), "n_calls": hc.calls.len(), "threads": hc.threads}));
